@@ -15,7 +15,12 @@
    descriptor yet and counts from zero, the tables and their rows are still there), so a table may have to evolve in a
    LATER session than the one that created it.
 
-   Dev: "SessionSkipsEvolution" (the first descriptor of a name seen by a session only creates the table if it does not
+   A writer may also DIE (Crash: the process is gone without close): what other connections see afterwards is what
+   was committed before -- the open transaction is rolled back by SQLite's journal, whole.
+
+   Dev: "CrashKeepsSpilledPages" (no on-disk rollback journal: rows of the open transaction that were already spilled to
+        the file stay visible after the writer died),
+        "SessionSkipsEvolution" (the first descriptor of a name seen by a session only creates the table if it does not
         exist, and never adds columns to one that does),
         "CloseNoCommit", "CommitOffByOne", "NoDescriptorCommit", "NoColumnEvolution" (sensitivity runs) *)
 EXTENDS Naturals, Sequences, FiniteSets, TLC
@@ -75,10 +80,29 @@ ReopenCore == /\ ~open /\ sess < MaxSess /\ open' = TRUE /\ seen' = {} /\ count'
               /\ UNCHANGED <<cols, rows, batch, nw, bounds>>
 ReopenVis == UNCHANGED <<ccols, crows>>
 Reopen == ReopenCore /\ ReopenVis
+\* n records of one type in a row (trace validation of long runs; the composition of n Write(d) steps)
+WriteManyCore(d, n) ==
+    /\ open /\ n >= 1
+    /\ cols' = NewCols(d) /\ rows' = [rows EXCEPT ![NameOf(d)] = @ \o [i \in 1..n |-> nw + i]]
+    /\ seen' = seen \cup {d} /\ count' = count + n /\ nw' = nw + n
+    /\ bounds' = bounds \cup (IF d \notin seen THEN {nw} ELSE {}) \cup {nw + k : k \in {j \in 1..n : (count + j) % batch = 0}}
+    /\ UNCHANGED <<batch, open, sess>>
+WriteManyVis(d, n) ==
+    LET hits == {j \in 1..n : (count + j) % batch = 0} IN
+    IF hits # {} THEN LET last == CHOOSE j \in hits : \A k \in hits : k <= j IN
+                      ccols' = NewCols(d) /\ crows' = [rows EXCEPT ![NameOf(d)] = @ \o [i \in 1..last |-> nw + i]]
+    ELSE IF d \notin seen /\ "NoDescriptorCommit" \notin Dev THEN ccols' = NewCols(d) /\ crows' = rows
+    ELSE UNCHANGED <<ccols, crows>>
+\* the writer's process dies: its uncommitted work is gone with it
+CrashVis == IF "CrashKeepsSpilledPages" \in Dev THEN ccols' = cols /\ crows' = rows ELSE UNCHANGED <<ccols, crows>>
+\* (the model ends there: sess' = MaxSess rules out a later session, whose record numbering would have holes)
+CrashCore == /\ open /\ open' = FALSE /\ rows' = crows' /\ cols' = ccols' /\ sess' = MaxSess
+             /\ UNCHANGED <<seen, count, batch, nw, bounds>>
+Crash == CrashVis /\ CrashCore
 Write(d) == WriteCore(d) /\ WriteVis(d)
 Flush == FlushCore /\ FlushVis
 Close == CloseCore /\ CloseVis
-Next == (\E d \in Descs : Write(d)) \/ Flush \/ Close \/ Reopen
+Next == (\E d \in Descs : Write(d)) \/ Flush \/ Close \/ Reopen \/ Crash
 Spec == Init /\ [][Next]_vars
 
 \* ---------------- C18 ----------------
